@@ -4,7 +4,7 @@ from harness import templates as T
 from harness.mutate import mutation, batches, base_content
 from oracle.content import content
 
-THOROUGH_STRIDE = 5      # the registered thorough tier runs every 5th instance of the full cross product (vp_check.py --tier full runs all)
+THOROUGH_STRIDE = 9      # the registered thorough tier runs every 9th instance of each family of the full cross product (vp_check.py --tier full runs all)
 
 ASSUMPTIONS = [
     'one fault per document; six base documents that together contain every grammar rule; inserted fragment of K characters '
